@@ -132,3 +132,21 @@ Definition exact_nosend_ok (quiescent : bool) (ls : list label) (os : list (list
   if quiescent && negb (closed_seen os)
   then forallb (fun id => Nat.eqb (nrep id (concat os)) (sentE id ls)) (ids_of ls)
   else true.
+
+(* ---- (frame) an empty frame, or one with an undecodable rest, closes the connection,
+   however many commands were decoded from it before ---- *)
+Definition saw_close (l : list out) : bool :=
+  existsb (fun o => match o with OClose _ => true | _ => false end) l.
+Definition bad_frame (l : label) : bool :=
+  match l with
+  | LFrame cs m => m || match cs with [] => true | _ => false end
+  | _ => false
+  end.
+Fixpoint frames_ok (closed : bool) (ls : list label) (os : list (list out)) : bool :=
+  match ls, os with
+  | [], [] => true
+  | l :: ls', o :: os' =>
+      let c' := closed || saw_close o in
+      (negb (bad_frame l) || c') && frames_ok c' ls' os'
+  | _, _ => false
+  end.
